@@ -729,3 +729,36 @@ def r02_8(ctx):
                               "(the depender is silently never rebuilt)", site=ctx.site(nf, esc[0]))
             else:
                 ctx.ok("every finished edge either decrements the counter or releases the depender", site=ctx.site(nf, decs[0]))
+
+
+@rule("C05", "R05.4", floor=1)
+def r05_4(ctx):
+    """cycles are never reported by a worker: a dependency found while collecting is recorded, not turned into an error —
+    a worker error aborts the coordinator loop at once, so the acyclic rest of the project would be left unbuilt"""
+    lib = ctx.lib
+    b = body(ctx, "execute_in_collect_deps_mode")
+    if not b:
+        return
+    some_e = enum_edges(b, lib, "std::option::Option", lambda vs: vs == {"Some"}, src_pred=lambda c: has_call(c.src, ROLE["get_txtpp_file"]))
+    if not some_e:
+        ctx.anchor_missing("`if let Some(x) = get_txtpp_file()` in the collect-deps gate")
+        return
+    reg = C.region(b, some_e)
+    bad = []
+    for bb in err_sites(b):
+        if bb not in reg:
+            continue
+        t = b.term(bb)
+        if t["k"] == "call" and C.is_from_residual(t):
+            # `?`: acceptable only for the resolution of the dependency path (share_base)
+            src = C.trace(b, t["args"][0], through_decorators=True, through_try=True)
+            if all(leaf_is_call(l, ROLE["share_base"]) for l in src) and src:
+                continue
+            bad.append((bb, "`?` on %s" % sorted({(l.callee() or l.kind) for l in src})))
+        else:
+            bad.append((bb, "an error constructed in place"))
+    if bad:
+        ctx.violation(["dependency-becomes-error", bad[0][1][:80]], "while collecting dependencies, a found dependency can be turned into an immediate error (%s): "
+                      "a self/cyclic dependency would then abort the whole run before the acyclic files are built" % bad[0][1], site=ctx.site(b, bad[0][0]))
+    else:
+        ctx.ok("a found dependency is only ever recorded (errors: path resolution only)", site=ctx.site(b, min(reg)))
